@@ -354,6 +354,13 @@ func readOut(path string) (ds []delivered, ready bool) {
 
 var childSlots = make(chan struct{}, 10) // helper processes alive at one time
 
+var (
+	noteMu sync.Mutex
+	notes  = map[string]int{}
+)
+
+func note(k string) { noteMu.Lock(); notes[k]++; noteMu.Unlock() }
+
 func runPhase(w *world, cfgS hx.Sx, run int, ph phase, snapPrev snapshot, truncatedDown map[int]bool) hx.Sx {
 	hc := decodeCfg(cfgS)
 	outPath := filepath.Join(w.dir, fmt.Sprintf("out%d.log", run))
@@ -509,6 +516,13 @@ loop:
 	if selfExit && !(ph.killMode == 3 || ph.killMode == 4) {
 		status = 1
 	}
+	if ph.killMode == 3 || ph.killMode == 4 {
+		if selfExit {
+			note("strace: SIGKILL injected at the save syscall")
+		} else {
+			note("strace: fewer such syscalls than asked, killed at quiescence")
+		}
+	}
 	if selfExit && (ph.killMode == 3 || ph.killMode == 4) {
 		// killed by strace at the save syscall (expected) — anything else the helper printed is a crash
 		if b, _ := os.ReadFile(filepath.Join(w.dir, fmt.Sprintf("child%d.err", run))); bytes.Contains(b, []byte("panic")) || bytes.Contains(b, []byte("fatal")) {
@@ -640,6 +654,7 @@ func main() {
 		fmt.Printf("truncate-inflight-multi-stream\t0\t%s\n", hx.String(witnessTruncInflight()))
 		fmt.Printf("truncate-inflight-blank\t0\t%s\n", hx.String(witnessTruncInflightBlank()))
 		fmt.Printf("truncate-inflight-single\t0\t%s\n", hx.String(witnessTruncInflightSingle()))
+		fmt.Printf("antispam-empty-stream\t0\t%s\n", hx.String(witnessAntispamEmptyStream()))
 		return
 	}
 	logger.Level.SetLevel(zapcore.FatalLevel)
